@@ -238,6 +238,19 @@ def _a1():
     }
     for name, (fn, specs) in mixed.items():
         _reg("A1", f"mix.{name}", functools.partial(P, fn, specs))
+    # broadcasting combinations (either operand may be the broadcast-larger one)
+    bops = {"add": jnp.add, "mul": jnp.multiply, "sub": jnp.subtract, "div": jnp.divide, "pow": jnp.power, "max": jnp.maximum, "min": jnp.minimum,
+            "where": lambda a, b: jnp.where(a > b, a, b), "atan2": jnp.arctan2, "lt": jnp.less, "fmod": jnp.fmod, "clip": lambda a, b: jnp.clip(a, -1.0, b),
+            "lax_add": lax.add if False else (lambda a, b: a + b), "hypot": jnp.hypot, "logaddexp": jnp.logaddexp}
+    combos = {"s_23": ((), (2, 3)), "23_s": ((2, 3), ()), "13_43": ((1, 3), (4, 3)), "43_13": ((4, 3), (1, 3)), "3_243": ((3,), (2, 4, 3)), "243_3": ((2, 4, 3), (3,)),
+              "41_13": ((4, 1), (1, 3)), "B3_13": (("B", 3), (1, 3)), "13_B3": ((1, 3), ("B", 3))}
+    for on, f in bops.items():
+        for cn, (sa, sb) in combos.items():
+            _reg("A1", f"bc.{on}/{cn}", functools.partial(P, f, [(sa, F32), (sb, F32)]), tier="quick" if on in ("add", "pow", "where", "max", "div", "clip") else "thorough")
+    # python-scalar operands on either side
+    for on, f in {"rpow": lambda x: 0.5 ** x, "pow2": lambda x: x ** 2.0, "rsub": lambda x: 1.0 - x, "rdiv": lambda x: 2.0 / x, "rmax": lambda x: jnp.maximum(0.25, x), "rwhere": lambda x: jnp.where(x > 0, 1.0, x)}.items():
+        for cn, sh in {"B3": ("B", 3), "23": (2, 3)}.items():
+            _reg("A1", f"sc.{on}/{cn}", functools.partial(P, f, [(sh, F32)]))
     # depth-2 compositions over a small core (thorough)
     core = {"neg": lax.neg, "abs": lax.abs, "floor": lax.floor, "round": lambda x: lax.round(x), "relu": jax.nn.relu,
             "sign": lax.sign, "half": lambda x: x * 0.5, "inc": lambda x: x + 1.0, "sq": lax.square, "ceil": lax.ceil,
